@@ -35,7 +35,7 @@ func dedupBases(d refmodel.Atoms) refmodel.Atoms {
 			continue
 		}
 		seen[k{a.Pos, a.Rev}] = true
-		a.FL, a.FH, a.Part, a.Amb = false, false, 0, false
+		a.FL, a.FH, a.Part = false, false, 0
 		out = append(out, a)
 	}
 	return out
@@ -165,26 +165,92 @@ func c06Eval(c c06Case) (ok bool, sig, detail string) {
 	return true, "", "unknown kind"
 }
 
-// dropRangedThenPointDedup: same classifier on de-duplicated lists (parts may repeat bases).
+// dropRangedThenPointDedup: same classifier when parts repeat bases.  Candidates
+// (points directly after a part that ends on the previous base) are found on the
+// full concatenation of the parts; the comparison is on de-duplicated lists.
 func dropRangedThenPointDedup(all, gotDedup refmodel.Atoms) bool {
-	// rebuild a de-duplicated ideal list that keeps part ids and flags of first occurrences
+	bases := all.Bases()
+	count := map[int]int{}
+	flagged := map[int]bool{}
+	for _, a := range bases {
+		count[a.Part]++
+		if a.FL || a.FH {
+			flagged[a.Part] = true
+		}
+	}
 	type k struct {
 		pos int
 		rev bool
 	}
-	seen := map[k]bool{}
-	var ded refmodel.Atoms
-	for _, a := range all {
-		if a.Site {
+	var candIdx []int
+	isCand := map[int]bool{}
+	point := func(a refmodel.Atom) bool { return count[a.Part] == 1 && !a.Amb && !flagged[a.Part] }
+	// forward strand: a point right after the base that ends a preceding part, looking back across
+	// points that are themselves candidates (they may have been dropped before it)
+	for i, a := range bases {
+		if a.Rev || !point(a) {
 			continue
 		}
-		if seen[k{a.Pos, a.Rev}] {
-			continue
+		for j := i - 1; j >= 0; j-- {
+			p := bases[j]
+			if p.Rev {
+				break
+			}
+			if p.Part != a.Part && !p.Amb && p.Pos+1 == a.Pos {
+				isCand[i] = true
+			}
+			if !isCand[j] {
+				break
+			}
 		}
-		seen[k{a.Pos, a.Rev}] = true
-		ded = append(ded, a)
 	}
-	return dropRangedThenPoint(ded, gotDedup)
+	// inside a complement the reading order is reversed: scan the other way
+	for i := len(bases) - 1; i >= 0; i-- {
+		a := bases[i]
+		if !a.Rev || !point(a) {
+			continue
+		}
+		for j := i + 1; j < len(bases); j++ {
+			p := bases[j]
+			if !p.Rev {
+				break
+			}
+			if p.Part != a.Part && !p.Amb && p.Pos+1 == a.Pos {
+				isCand[i] = true
+			}
+			if !isCand[j] {
+				break
+			}
+		}
+	}
+	for i := range bases {
+		if isCand[i] {
+			candIdx = append(candIdx, i)
+		}
+	}
+	if len(candIdx) == 0 || len(candIdx) > 8 {
+		return false
+	}
+	_ = k{}
+	// the observed list must be the de-duplicated concatenation with a non-empty subset of the candidate occurrences removed first
+	for sub := 1; sub < 1<<uint(len(candIdx)); sub++ {
+		drop := map[int]bool{}
+		for b, i := range candIdx {
+			if sub>>uint(b)&1 == 1 {
+				drop[i] = true
+			}
+		}
+		var kept refmodel.Atoms
+		for i, a := range bases {
+			if !drop[i] {
+				kept = append(kept, a)
+			}
+		}
+		if dedupBases(kept).Equal(gotDedup) {
+			return true
+		}
+	}
+	return false
 }
 
 func init() {
